@@ -308,9 +308,16 @@ def run_sites(ctx: Ctx):
                         k = (x.file, nm, x.line)
                         sites.setdefault(k, {"where": _where(c, I, r, x), "inv": nm, "args": el, "result": res, "line": x.line, "file": x.file, "kind": "function", "rule": r, "cls": x.cls})
         # construction sites outside the parser (passes, prologue)
+        from .normalise import normalise_module
+
         for rel in (VISITORS_REL, "coco/b09/compiler.py", "coco/b09/error_handler.py"):
             m = py.mod(rel)
-            for n in ast.walk(m.tree):
+            # small module-level helpers (`_run_line(name, args)`) are inlined first, so that the name is a constant again
+            tree_n = normalise_module(m.tree) if rel != VISITORS_REL else m.tree
+            helper_params = {id(c) for f_ in tree_n.body if isinstance(f_, ast.FunctionDef) for c in ast.walk(f_) if isinstance(c, ast.Call) and isinstance(c.func, ast.Name) and c.func.id in ("BasicRunCall", "BasicFunctionalExpression") and c.args and isinstance(c.args[0], ast.Name) and c.args[0].id in [a.arg for a in f_.args.args]}
+            for n in ast.walk(tree_n):
+                if id(n) in helper_params:
+                    continue  # the helper itself: judged at its (inlined) call sites
                 if isinstance(n, ast.Call) and isinstance(n.func, ast.Name) and n.func.id in ("BasicRunCall", "BasicFunctionalExpression") and n.args:
                     owner = "BasicConstructVisitor"
                     o = I.ev(n, {}, owner)
